@@ -508,33 +508,7 @@ func (o *Obligation) solve(dir string, timeoutS int, thorough bool) {
 		verdicts = append(verdicts, solver+"+"+vr.name+"="+v+"(ignored)")
 		return false
 	}
-	if thorough {
-		for _, s := range solvers {
-			v, out, secs := runSolver(s, path, timeoutS)
-			o.Secs += secs
-			record(s.name, v, out)
-			if strings.HasPrefix(o.Output, "SOLVER DISAGREEMENT") {
-				return
-			}
-		}
-		for _, vr := range variants {
-			if !vr.exact && final != "" {
-				continue
-			}
-			ss := []solverSpec{solvers[0]}
-			if vr.exact {
-				ss = append(ss, solvers[2])
-			}
-			for _, s := range ss {
-				v, out, secs := runSolver(s, vr.path, timeoutS)
-				o.Secs += secs
-				recordV(vr, s.name, v, out)
-				if strings.HasPrefix(o.Output, "SOLVER DISAGREEMENT") {
-					return
-				}
-			}
-		}
-	} else {
+	{
 		// quick tier: a short attempt on the plain query, then a race of the plain query (two z3
 		// arithmetic configurations) and every variant; the first decisive answer wins and the
 		// other processes are killed; then the remaining solvers
@@ -610,6 +584,47 @@ func (o *Obligation) solve(dir string, timeoutS int, thorough bool) {
 				}
 			}
 		}
+	}
+	if thorough && final != "" && !strings.HasPrefix(o.Output, "SOLVER DISAGREEMENT") {
+		// thorough tier: the decisive answer is cross-checked by a solver of the other family on
+		// the plain query and on the exact instantiated variant; a contradicting answer is a failure,
+		// an undecided cross-check is recorded
+		other := []solverSpec{solvers[2], solvers[3]}
+		if strings.HasPrefix(o.Solver, "cvc5") {
+			other = []solverSpec{solvers[0], solvers[3]}
+		}
+		targets := []struct {
+			name string
+			path string
+		}{{"", path}}
+		for _, vr := range variants {
+			if vr.exact {
+				targets = append(targets, struct {
+					name string
+					path string
+				}{"+" + vr.name, vr.path})
+			}
+		}
+		checked := false
+		for _, tg := range targets {
+			for _, sv := range other {
+				if checked {
+					break
+				}
+				v, out, secs := runSolver(sv, tg.path, 60)
+				o.Secs += secs
+				if v == "sat" || v == "unsat" {
+					record(sv.name+tg.name+"(cross-check)", v, out)
+					checked = true
+				} else {
+					verdicts = append(verdicts, sv.name+tg.name+"(cross-check)="+v)
+				}
+			}
+		}
+		if strings.HasPrefix(o.Output, "SOLVER DISAGREEMENT") {
+			return
+		}
+		o.CrossChecked = checked
 	}
 	if final == "" {
 		o.Output = "no solver decided: " + strings.Join(verdicts, " ")
